@@ -31,7 +31,9 @@ LINE_TYPE_W = [('float', 8), ('int', 2), ('bool', 3), ('str', 2), ('enum', 1)]
 FLOATS = [0.0, 1.0, 2.5, 10.25, 1500.0, 0.005, 1.005, 2.675, -3.5, 99999.99, 0.125, 1500.01, 7.0]
 INTS = [0, 1, 2, 3, 5, 10, -1, 1500, 9007199254740993, 123456789012345678901]
 STRS = ['abc', 'John Q', 'x', '', 'a=b; c', 'Zoe~', '(paren', 'back\\slash', '1040', 'Where St #12', '#4B', 'x ;y', '; z',
-        'line one\nline two', 'a\n\nb after an empty line', 'form\x0cfeed', 'vt\x0btab']
+        'line one\nline two', 'a\n\nb after an empty line', 'form\x0cfeed', 'vt\x0btab',
+        # several rows that each look like a line of their own ("label: amount", "label = amount", "[x]")
+        'CASDI: 61.20\nRSU: 500.00\nDUES = 12', 'see\n[w]\nnote: 1']
 REGEX_OK = ['ab1', 'cc9', 'ba0']
 SSNS = [('123-45-6789', '123456789'), ('987654321', '987654321'), ('000-00-0001', '000000001')]
 TRUE_TXT = ['yes', 'y', 'true', '1', 'on', 'Yes', 'TRUE']
